@@ -78,11 +78,18 @@ func (h *verifSlowHandler) ServeDNS(ctx context.Context, rw ResponseWriter, req 
 // size and the order in which the workers run; every query is answered and the
 // connection is closed once at the end.
 //
-//verif:harness name=H18d-pipeline tier=quick,thorough bounds="one TCP connection delivering a burst of 1..4 queries then EOF; max_pipeline_count in 1..2 (or limiting disabled); every worker a thread that yields in the middle of the handler; all thread orders at blocking points and yields" reach=done,limited,unlimited maxpaths=300000 switches=0
+//verif:harness name=H18d-pipeline tier=quick bounds="one TCP connection delivering a burst of 1..4 queries then EOF; max_pipeline_count in 1..2 (or limiting disabled); every worker a thread that yields in the middle of the handler; all thread orders at blocking points and yields" reach=done,limited,unlimited maxpaths=300000 switches=0
 //verif:assume worker pool = one thread per task; threads switch at blocking operations, at the handler's explicit yield and when finished
-func VerifC18Pipeline() {
-	burst := 1 + verifChoice(4)
-	limit := uint(1 + verifChoice(2))
+func VerifC18Pipeline() { verifC18Pipeline(4, 2) }
+
+// VerifC18Pipeline6 is the thorough variant.
+//
+//verif:harness name=H18d-pipeline6 tier=thorough bounds="as H18d-pipeline with bursts of 1..6 queries and max_pipeline_count in 1..3" reach=done,limited,unlimited maxpaths=5000000 switches=0
+func VerifC18Pipeline6() { verifC18Pipeline(6, 3) }
+
+func verifC18Pipeline(maxBurst, maxLimit int) {
+	burst := 1 + verifChoice(maxBurst)
+	limit := uint(1 + verifChoice(maxLimit))
 	enabled := verifChoice(3) != 0
 	h := &verifSlowHandler{}
 	s := &ServerDNS{
